@@ -35,9 +35,16 @@ ModMsg(msg, upto, origid) ==
   origid \o SubSeq(msg, 3, 10) \o U16Be(U16(msg, 10) - 1) \o SubSeq(msg, 13, upto)
 Timers(f) == f.time48 \o U16Be(f.fudge)
 
-Abs(a, b) == IF a >= b THEN a - b ELSE b - a
-\* now < 2^31 and fudge < 2^16, so any signing time >= 2^31 is outside the window
-TimeOk(f, now) == f.timehi = 0 /\ f.tmid < 32768 /\ Abs(now, f.tmid * 65536 + f.tlo) <= f.fudge
+\* 48-bit times as three 16-bit words [hi, mid, lo]; |a - b| <= fudge (fudge < 2^16) without leaving 32-bit integers
+Words(n) == [hi |-> 0, mid |-> n \div 65536, lo |-> n % 65536]          \* n < 2^31
+Geq48(a, b) == a.hi > b.hi \/ (a.hi = b.hi /\ (a.mid > b.mid \/ (a.mid = b.mid /\ a.lo >= b.lo)))
+Diff48(a, b) ==      \* a >= b; exact when below 2^17, otherwise some value > 65535
+  IF a.hi = b.hi /\ a.mid = b.mid THEN a.lo - b.lo
+  ELSE IF (a.hi = b.hi /\ a.mid = b.mid + 1) \/ (a.hi = b.hi + 1 /\ a.mid = 0 /\ b.mid = 65535) THEN 65536 + a.lo - b.lo
+  ELSE 131072
+Within48(a, b, fudge) == IF Geq48(a, b) THEN Diff48(a, b) <= fudge ELSE Diff48(b, a) <= fudge
+TimeOkW(f, nw) == Within48([hi |-> f.timehi, mid |-> f.tmid, lo |-> f.tlo], nw, f.fudge)
+TimeOk(f, now) == TimeOkW(f, Words(now))
 \* a 48-bit time field that denotes a second in [t0, t1]
 NowIn(t48, t0, t1) == t48[1] = 0 /\ t48[2] = 0 /\ t48[3] < 128 /\
                       LET v == (t48[3] * 256 + t48[4]) * 65536 + t48[5] * 256 + t48[6] IN v >= t0 /\ v <= t1
@@ -50,9 +57,10 @@ Digest(mode, msg, tstart, keyname, f, prior) ==
   ELSE pre \o body \o TsigVars(keyname, f, f.error, f.other)
 
 \* the verdict of tsig.rs verify_* once algorithm and key are known
-Verdict(alg, secret, digest, f, now) ==
+VerdictW(alg, secret, digest, f, nw) ==
   LET full == HMAC(alg, secret, digest) IN
   IF ~MacLenOk(alg, f.mac) THEN "formerr"
   ELSE IF SubSeq(full, 1, Len(f.mac)) # f.mac THEN "badsig"
-  ELSE IF ~TimeOk(f, now) THEN "badtime" ELSE "ok"
+  ELSE IF ~TimeOkW(f, nw) THEN "badtime" ELSE "ok"
+Verdict(alg, secret, digest, f, now) == VerdictW(alg, secret, digest, f, Words(now))
 ====
